@@ -87,3 +87,65 @@ func c17r10(rc *core.RC) {
 	}
 	rc.Check(len(bad) == 0, key, fd.Pos(), "getu4, folded for %d six-byte inputs (every byte value in each digit position), returns the value of the four hex digits, upper or lower case, and -1 otherwise%s", count, map[bool]string{true: "", false: ": " + strings.Join(bad, "; ")}[len(bad) == 0])
 }
+
+// ---- C17.R11 unicodeToRune, folded ----
+
+// unicodeToRune is the decoders' reader of the four hex digits behind `\u` (string values, object keys, in buffer
+// and stream mode). It is a pure function of its bytes: folded as a whole for every byte value in each of the four
+// positions (the others running through digits of all classes) it has to return the value of the digits, and -1
+// when a byte is not a hex digit.
+func c17r11(rc *core.RC) {
+	p := rc.P
+	fd := p.Func("decoder", "unicodeToRune")
+	key := "decoder.unicodeToRune/value-of-four-hex-digits"
+	if fd == nil || fd.Body == nil || fd.Type.Params.NumFields() != 1 {
+		rc.Unknown(key, token.NoPos, "function not found")
+		return
+	}
+	rc.Touch(p.FuncName(fd))
+	info := p.Info(fd)
+	arg := info.Defs[fd.Type.Params.List[0].Names[0]]
+	bp := &core.BytePred{P: p, Strings: map[types.Object][]byte{}}
+	hexVal := func(c byte) int64 {
+		switch {
+		case '0' <= c && c <= '9':
+			return int64(c - '0')
+		case 'a' <= c && c <= 'f':
+			return int64(c-'a') + 10
+		case 'A' <= c && c <= 'F':
+			return int64(c-'A') + 10
+		}
+		return -1
+	}
+	var bad []string
+	count := 0
+	for pos := 0; pos < 4; pos++ {
+		for b := 0; b < 256; b++ {
+			for _, fill := range []byte("09afAF3cD") {
+				s := []byte{fill, fill, fill, fill}
+				s[pos] = byte(b)
+				bp.Steps = 0
+				bp.Strings[arg] = s
+				_, _, done, ok := bp.ExecList(info, fd.Body.List, core.BindAll(nil))
+				if !ok || !done || len(bp.Results) != 1 {
+					rc.Unknown(key, fd.Pos(), "unicodeToRune could not be folded for %q", s)
+					return
+				}
+				count++
+				want := int64(0)
+				for _, c := range s {
+					v := hexVal(c)
+					if v < 0 {
+						want = -1
+						break
+					}
+					want = want*16 + v
+				}
+				if got := int64(int32(bp.Results[0])); got != want && len(bad) < 6 {
+					bad = append(bad, fmt.Sprintf("%q -> %d (the digits say %d)", s, got, want))
+				}
+			}
+		}
+	}
+	rc.Check(len(bad) == 0, key, fd.Pos(), "unicodeToRune, folded for %d four-byte inputs (every byte value in each position), returns the value of the hex digits of either case and -1 otherwise%s", count, map[bool]string{true: "", false: ": " + strings.Join(bad, "; ")}[len(bad) == 0])
+}
